@@ -71,7 +71,7 @@ def run(tier):
     return viol, cov, 1, rep["runs"], rep["runs"]
 
 
-def run_node(tier):
+def run_node(tier, clock=True, only=None):
     """node-level pairs (Node.tla alphabet) under imposed schedules, judged by ConcNode.tla"""
     quick = tier == "quick"
     binpath = vlib.build("locks")
@@ -85,8 +85,15 @@ def run_node(tier):
                  {"op": "NewChannel", "d": 1}, {"op": "Setup", "d": 1}, {"op": "NewChannel", "d": 2}]]
     rng = random.Random(vlib.seed())
     pairs = [(a, b) for i, a in enumerate(reqs) for b in reqs[i:]]
+    if only:    # (C11's durability leg: pairs of the named request kinds)
+        pairs = [(a, b) for a, b in pairs if a["op"] in only and b["op"] in only]
     # (every pair, also in the quick tier: a sample missed Setup||Forget on one stub; all pairs take < 30 s)
     cases = [{"prefix": p, "a": a, "b": b} for p in (prefixes[1:] if quick else prefixes) for a, b in pairs]
+    if quick:
+        # from the empty node too, for the requests whose outcome depends on what the prefix already registered
+        # (two approvals / creations for one payment hash / channel id racing on a node that has neither yet)
+        fresh = ("AddInvoice", "AddKeysend", "NewChannel", "Forget")
+        cases += [{"prefix": [], "a": a, "b": b} for a, b in pairs if a["op"] in fresh and b["op"] in fresh]
     cf = os.path.join(d, "cases.ndjson")
     with open(cf, "w") as f:
         for c in cases:
@@ -105,17 +112,24 @@ def run_node(tier):
         key = "node-nonlinearizable:%s||%s" % tuple(sorted([x["a"]["op"], x["b"]["op"]]))
         viol.append({"key": key, "what": "concurrent %s and %s on one node produced an outcome no sequential order explains" % (
             x["a"]["op"], x["b"]["op"]), "replay": {"kind": "conc-node", "run": x}})
+    for x in rep.get("nondurable", []):
+        key = "node-nondurable:%s||%s:%s" % (tuple(sorted([x["a"]["op"], x["b"]["op"]])) + (",".join(sorted(set(".".join(f.split(".")[:2]) for f in x["rdiff"]))),))
+        viol.append({"key": key, "what": "after concurrent %s and %s both returned, a signer restored from the store differs from the running one in %s" % (
+            x["a"]["op"], x["b"]["op"], ", ".join(x["rdiff"][:4])), "replay": {"kind": "conc-node", "run": x}})
     for x in rep["stuck"]:
         key = "node-stuck:%s||%s" % tuple(sorted([x["a"]["op"], x["b"]["op"]]))
         viol.append({"key": key, "what": "concurrent %s and %s never completed" % (x["a"]["op"], x["b"]["op"]),
                      "replay": {"kind": "conc-node", "run": x}})
     cov = {"atomicity_node_level": {"cases": len(cases), "concurrent_runs": rep["runs"],
                                     "nonlinearizable": len(rep["nonlinearizable"]), "stuck": len(rep["stuck"]),
+                                    "nondurable": len(rep.get("nondurable", [])),
                                     "spec_divergences": len(rep["spec_divergences"]), "harness": st}}
     # ---- time passes while a request is preempted: the same pairs of payment requests on a node whose payment
     # velocity limit is one v1 amount per hour (already used up by the prefix); the clock advances by one bucket
     # (300 s) between the two requests of the sequential references and, in the concurrent runs, while the held
     # thread waits at its stop point.  Every reply must be that of a sequential order (both declined).
+    if not clock:
+        return viol, cov, rep["runs"]
     pay = [r for r in reqs if r["op"] in ("AddInvoice", "AddKeysend")]
     tcases = [{"prefix": [{"op": "AddKeysend", "h": "h2", "v": "v1"}], "a": a, "b": b, "policy": "paylimit", "tick": 300}
               for i, a in enumerate(pay) for b in pay[i:]]
